@@ -33,6 +33,20 @@ def step (s : Option St) (line : String) : Option St × String :=
             setColl st1 k (subs.foldl insertSorted (getColl st1 k))
           (some st2, "ok")
         | _, _ => (s, "bad-op")
+      | ["bigpop", tp, table, n] =>
+        -- n keys k00000… plus a_hit_0, z_hit_1, z_hit_2 in one table (kv: values; set: one member "m" each)
+        match unhex table, n.toNat? with
+        | some table, some n =>
+          if tp != "kv" && tp != "set" then (s, "bad-op") else
+          let pad5 (i : Nat) : String := let d := toString i; String.mk (List.replicate (5 - d.length) '0') ++ d
+          let names : List String := (List.range n).map (fun i => "k" ++ pad5 i) ++ ["a_hit_0", "z_hit_1", "z_hit_2"]
+          let T := tp.toUpper
+          let st2 := names.foldl (fun acc nm =>
+            let raw := table ++ [58] ++ nm.toUTF8.toList
+            let a1 := setPop acc T (insertSorted (getPop acc T) raw)
+            if tp == "kv" then a1 else setColl a1 ("s", raw) (insertSorted (getColl a1 ("s", raw)) [109])) st
+          (some st2, "ok")
+        | _, _ => (s, "bad-op")
       | ["adv", T, cur, cnt, rev] =>
         match unhex cur, cnt.toInt? with
         | some cur, some cnt =>
